@@ -228,6 +228,64 @@ example : dataBytes [0x21, 1, 9, 0, 2, 5, 6, 0, 1, 7] = [5, 6, 7] := by
   · rfl
   · rename_i h; simp [frameHeader, NetVerif.Model.VarintQuic.consumeVarint] at h
 
+def Hid : Huff := { encLen := fun s => s.length, enc := fun s => s, dec := fun s => some s }
+
+/-! ### Hunted defects (repaired upstream unless stated)
+
+* a stream ending between the type and the length of a frame header was a clean `io.EOF`
+  (repaired: `readFrameHeader` reports H3_FRAME_ERROR) — `frameHeader_eof_only_at_boundary`;
+* frame errors on the control stream only reset the receive-only stream (repaired: connection
+  error H3_FRAME_ERROR) — `control_truncated_frame_aborts`;
+* `serverConn.parseHeader` rejected unknown frames before HEADERS (repaired: skipped) —
+  `parseHeader_skips_unknown`;
+* KNOWN FINDING `frame-error-reset-as-internal-error`: a bare `errH3FrameError` reaching
+  `handleStreamError` is sent as H3_INTERNAL_ERROR — `frameErrorCode_full_false`. -/
+
+/-- The stream ending right after the frame type (first byte of the length missing) is
+H3_FRAME_ERROR, not a clean end of stream. -/
+theorem frameHeader_eof_only_at_boundary (s s1 s2 : St) (ft : Nat) (hl : s.lim < 0)
+    (h1 : readVarint s = .ok ft s1) (h2 : readVarint s1 = .err .eof s2) :
+    readFrameHeader s = .err (.plain cFrameError) s2 := by
+  unfold readFrameHeader
+  have : ¬ s.lim ≥ 0 := by omega
+  simp [this, h1, h2, Out.bind]
+
+example : readFrameHeader (St.fresh [0]) =
+    .err (.plain cFrameError) { St.fresh [] with primed := true } := by rfl
+
+/-- Control stream: an unknown frame cut short by the end of the stream, and a frame type varint
+cut after its first byte, are connection errors H3_FRAME_ERROR. -/
+theorem control_truncated_frame_aborts :
+    handleUni (St.fresh [0, 4, 0, 0x21, 0x40, 0x64, 1, 2, 3, 0]) = .abort cFrameError ∧
+    handleUni (St.fresh [0, 4, 0, 0x40]) = .abort cFrameError := ⟨by rfl, by rfl⟩
+
+/-- `parseHeader`'s frame loop skips an unknown frame in front of the HEADERS frame. -/
+theorem parseHeader_skips_unknown (H : Huff) (tbl : List (List Nat × List Nat)) (fuel : Nat) (s s1 s2 : St) (ft : Nat)
+    (h1 : readFrameHeader s = .ok ft s1) (hft : ft ≠ 1) (h2 : discardUnknownFrame s1 ft = .ok () s2) :
+    parseHeaderFrames H tbl (fuel + 1) s = parseHeaderFrames H tbl fuel s2 := by
+  conv => lhs; unfold parseHeaderFrames
+  simp [h1, hft, h2]
+
+/-- "A truncated or over-read frame is reported as an H3_FRAME_ERROR-class failure", at the level
+of what the peer is told (RESET_STREAM / CONNECTION_CLOSE code). FALSE today (known finding). -/
+def FrameErrorCodeStatement : Prop :=
+  ∀ (H : Huff) (tbl : List (List Nat × List Nat)) (k : Nat) (data : List Nat) (s : St),
+    (requestHandler H tbl k (St.fresh data)).2 = .err (.plain cFrameError) s →
+    (handleRequest H tbl k (St.fresh data)).2 = .reset cFrameError ∨
+    (handleRequest H tbl k (St.fresh data)).2 = .abort cFrameError
+
+theorem frameErrorCode_full_false : ¬ FrameErrorCodeStatement := by
+  intro h
+  have := h Hid [] 4 [1, 5, 0, 0] _ (by rfl)
+  rcases this with h | h <;> exact absurd h (by decide)
+
+/-- Outside the region (errors that arrive wrapped) the code is preserved. -/
+theorem frameErrorCode_partial (s : St) (c : Nat) :
+    handleStreamError s (some (.conn c)) = .abort c ∧
+    (s.dead = false → handleStreamError s (some (.strm c)) = .reset c) := by
+  unfold handleStreamError
+  exact ⟨rfl, fun h => by simp [h]⟩
+
 /-! ### Panics
 
 Before the repair (`fix: internal/http3: keep the QUIC stream after a frame-limit overrun`)
@@ -246,7 +304,6 @@ theorem noPanic_holds : NoPanicStatement := by
   unfold handleRequest
   exact finish_no_panic _ (safe_requestHandler H tbl k _ (good_fresh data))
 
-def Hid : Huff := { encLen := fun s => s.length, enc := fun s => s, dec := fun s => some s }
 
 /-- The old witness (HEADERS frame of declared length 1 whose QPACK prefix integer needs a second
 byte) now ends in a stream reset. -/
